@@ -4,4 +4,4 @@ From Coq Require Import ExtrOcamlBasic Extraction.
 Require Import PV.Peg.Ast PV.Peg.Spec PV.Meta.Tokens PV.Meta.Unescape PV.Meta.Consume PV.Meta.Spell.
 Extraction "../ocaml/gen/meta_model.ml"
   consume read meta_grammar all_mrules mrule_name of_tree unescape spec_parse
-  abs abs_grammar wp writable nested_bar depth tokens_of_grammar fe shape_list_eqb known_class min_parens decode_all.
+  abs abs_grammar wp writable nested_bar depth tokens_of_grammar fe shape_list_eqb known_class known_insens_gap known_nested_bar min_parens decode_all shipped repaired.
